@@ -206,7 +206,7 @@ Definition canon_tret (it : bytes) : bytes :=
   end.
 
 Definition seq_text (h : bytes) : bytes :=
-  match tok_get (dec T_MsgSeqNum) (tokens (unhex h)) with
+  match tok_get (dec T_MsgSeqNum) (ftokens (unhex h)) with
   | Some (c :: v) => c :: v
   | _ => [45]
   end.
